@@ -184,9 +184,9 @@ func runC11child(r *Result, thorough bool) {
 		if rng.Intn(2) == 0 {
 			cl.submit(a, cl.newTx())
 		}
-		if s >= steps/4 && !bigDone && r.Seed%100%2 == 1 {
+		if s >= steps/4 && !bigDone && r.Seed%100 == 1 {
 			bigDone = true
-			// every other schedule: one transaction of a few megabytes (an unusual but legitimate payload)
+			// the second schedule of a run: one transaction of a few megabytes (an unusual but legitimate payload)
 			big := append([]byte(fmt.Sprintf("big-%d-", r.Seed)), bytes.Repeat([]byte{'x'}, 3500000)...)
 			cl.submit(a, big)
 			appendLine(filepath.Join(dir, "bigtx"), "1")
@@ -494,7 +494,7 @@ func c11Recover(r *Result, rng *rand.Rand, dir string, seed int64, k, total int)
 		}
 	}
 	// (5) a second restart: what the recovered nodes wrote in their second life must be there too
-	if len(recovered) >= 2 {
+	if len(recovered) >= 2 && (k < 0 || k%3 == 0) {
 		type life struct {
 			known     map[uint32]int
 			delivered int
